@@ -43,7 +43,8 @@ type active struct {
 	class string
 	input []byte
 	wall  time.Time
-	cpu   time.Duration
+	cpu   time.Duration // user time at the start of the call
+	all   time.Duration // user+system time at the start of the call
 }
 
 // Harness runs single calls under the C09 oracle.
@@ -146,7 +147,9 @@ func (h *Harness) watchdog() {
 		// The machine is shared: under load a spinning call may get less than HangCPU of CPU
 		// time within HangWall. The verdict needs both; a call that is neither idle nor has
 		// burned HangCPU yet is given more time (up to 10 x HangWall).
-		idle := burned < 2*time.Second
+		// idle: neither user nor system time consumed (a process stalled inside the kernel,
+		// e.g. in page reclaim, is slow, not idle)
+		idle := allCPUTime()-a.all < 2*time.Second
 		if burned < HangCPU && !idle && time.Since(a.wall) < 10*HangWall {
 			continue
 		}
@@ -154,12 +157,12 @@ func (h *Harness) watchdog() {
 		switch {
 		case burned >= HangCPU:
 			a.k.Violation("hang:"+a.entry, fmt.Sprintf("call did not return within %v and burned %.0f s of user CPU time without returning", HangWall, burned.Seconds()), wit)
+			h.MarkHung(a.entry)
 		case idle:
 			a.k.Inconclusive("no-return-without-cpu:" + a.entry)
 		default:
 			a.k.Inconclusive("no-return-slow:" + a.entry)
 		}
-		h.MarkHung(a.entry)
 		h.c.Flush()
 		os.Exit(3)
 	}
@@ -217,7 +220,7 @@ func (h *Harness) Call(k *mon.Case, entry, class string, input []byte, fn func()
 	k.Count("calls:"+entry, 1)
 	a := &active{k: k, entry: entry, class: class, input: input}
 	runtime.ReadMemStats(&h.before)
-	a.wall, a.cpu = time.Now(), cpuTime()
+	a.wall, a.cpu, a.all = time.Now(), cpuTime(), allCPUTime()
 	h.cur.Store(a)
 	func() {
 		defer func() {
